@@ -333,6 +333,11 @@ class AppProgram:
                 for c in self.spec.get("chunks", [])]
 
     def __call__(self, environ, start_response):
+        result = self._call(environ, start_response)
+        self.rec["returned"] = True         # the application call itself completed (it did not raise)
+        return result
+
+    def _call(self, environ, start_response):
         spec = self.spec
         rec = self.rec = {"environ": {k: v for k, v in environ.items() if isinstance(v, (str, int, bool, tuple))},
                           "input": None, "produced": [], "close_calls": 0, "failed_at": None,
@@ -368,6 +373,8 @@ class AppProgram:
             headers.append(("Content-Length", str(max(0, total - spec.get("cut_by", 1)))))
         elif cl == "zero":
             headers.append(("Content-Length", "0"))
+        elif cl == "over":
+            headers.append(("Content-Length", str(total + spec.get("over_by", 1))))      # announces more than the body holds
         status = spec.get("status", "200 OK")
 
         def start():
